@@ -635,7 +635,17 @@ func checkU23(c *Ctx, p *Prog, fn *ssa.Function) {
 				}
 			}
 			if !after {
-				p2 = append(p2, "returns true at "+p.InstrPos(ret)+" before every combination was examined")
+				// (the zero-iteration answer given early: if len(combinations) == 0 { return true })
+				early := false
+				for _, e := range DomEdges(b) {
+					if lenZeroEdge(e, func(v ssa.Value) bool { return v == ssa.Value(combos) }) {
+						early = true
+					}
+				}
+				if !early {
+					p2 = append(p2, "returns true at "+p.InstrPos(ret)+" before every combination was examined")
+				}
+				continue
 			}
 			truesAfter++
 		}
@@ -1217,4 +1227,35 @@ func reachAvoiding(start, avoid *ssa.BasicBlock, within map[*ssa.BasicBlock]bool
 		push(x)
 	}
 	return found
+}
+
+// emptyGuarded: every path to b takes an edge implying that a collection the function iterates over
+// (a ranged map, or a slice whose length bounds a loop) is empty - the zero-iteration answer of a
+// for-all given early (`if len(list) == 0 { return true }`).
+func (p *Prog) emptyGuarded(b *ssa.BasicBlock) bool {
+	fn := b.Parent()
+	ranged := map[string]bool{}
+	lens := map[string]int{}
+	for _, blk := range fn.Blocks {
+		for _, in := range blk.Instrs {
+			if rg, ok := in.(*ssa.Range); ok {
+				ranged[p.Sym(rg.X).String()] = true
+			}
+			if call, ok := in.(*ssa.Call); ok && len(call.Call.Args) == 1 {
+				if bi, isB := call.Call.Value.(*ssa.Builtin); isB && bi.Name() == "len" {
+					lens[p.Sym(call.Call.Args[0]).String()]++
+				}
+			}
+		}
+	}
+	isList := func(v ssa.Value) bool {
+		k := p.Sym(v).String()
+		return ranged[k] || lens[k] >= 2
+	}
+	for _, e := range DomEdges(b) {
+		if lenZeroEdge(e, isList) {
+			return true
+		}
+	}
+	return false
 }
